@@ -36,7 +36,8 @@ DOWNS = '{"up", "refuse", "closeatonce"}'
 AUTH = '{"badhello", "badkey", "replay", "window", "encmethod", "method", "uid", "ok", "nosession"}'
 HIDDEN = '{"short", "bogus", "replay", "method", "uid"}'
 STATEMENT_INV = "TypeOK TargetPrefix PeerOnlyTarget AcceptOnlyValid HangOnlyAuthenticated CloseOnlyIncomplete AllForwarded"
-JVM = {"JAVA_TOOL_OPTIONS": "-Xss64m -XX:ParallelGCThreads=2"}
+JVM = {"JAVA_TOOL_OPTIONS": "-Xss64m -XX:ParallelGCThreads=2 -XX:TieredStopAtLevel=1"}   # short jobs: stay in the C1 compiler
+JVM_BIG = {"JAVA_TOOL_OPTIONS": "-Xss64m -XX:ParallelGCThreads=4"}
 NEG = {  # deviation -> invariant it must break
     "ReplayShort": "TargetPrefix",
     "CloseOnMethod": "CloseOnlyIncomplete",
@@ -58,17 +59,20 @@ AUTH_Q = '{"badkey", "method", "ok", "nosession"}'
 HIDDEN_Q = '{"bogus", "uid"}'
 
 
-def _mc(ctx, tag, chunks, allcuts, dev="{}", inv=STATEMENT_INV + " DecidesAtStop", workers=4, small=False):
+def _mc(ctx, tag, chunks, allcuts, dev="{}", inv=STATEMENT_INV + " DecidesAtStop", workers=4, small=False, tiny=False):
     sub = {"BUF": K["Buf"], "MAXCHUNKS": chunks, "ALLCUTS": "TRUE" if allcuts else "FALSE", "DEV": dev, "INV": inv,
            "SCRIPTS": SCRIPTS, "DOWNS": DOWNS, "AUTH": AUTH_Q if small else AUTH, "HIDDEN": HIDDEN_Q if small else HIDDEN}
-    return lib.run_tlc(ctx, "Dispatch", "Dispatch_mc.cfg", sub, tag=tag, workers=workers, expect_violation=True, env=JVM, timeout=3000)
+    if tiny:   # the negative configurations need one target script and one class only
+        sub.update({"SCRIPTS": '{"echo"}', "DOWNS": '{"up"}', "AUTH": '{"method"}', "HIDDEN": '{"bogus"}'})
+    return lib.run_tlc(ctx, "Dispatch", "Dispatch_mc.cfg", sub, tag=tag, workers=workers, expect_violation=True,
+                       env=JVM_BIG if workers >= 8 else JVM, timeout=3000)
 
 
 def _negatives(ctx):
     """One after the other (few JVMs at a time); each must stop at its own invariant."""
     out = {}
     for dev, inv in NEG.items():
-        out[dev] = _mc(ctx, "neg_" + dev, 1, False, '{"%s"}' % dev, inv, 2)
+        out[dev] = _mc(ctx, "neg_" + dev, 1, False, '{"%s"}' % dev, inv, 2, tiny=True)
     return out
 
 
@@ -94,15 +98,14 @@ def run(ctx):
     jobs = {}
     neg_f = pool.submit(_negatives, ctx)
     if q:
-        jobs["mc"] = pool.submit(_mc, ctx, "mc_2chunks_anchor_cuts", 2, False, small=True)
-        jobs["gen_reader"] = pool.submit(_gen, ctx, "gen_reader", "reader", 2)          # every shape x every 1-2 segment split x deadline/close
+        jobs["mc"] = pool.submit(_mc, ctx, "mc_2chunks_anchor_cuts", 2, False, small=True)   # deadline, peer close, relay and target steps interleave freely
+        jobs["gen_reader"] = pool.submit(_gen, ctx, "gen_reader", "reader", 3)          # every shape x every split into <= 3 segments at anchors x deadline/close
         jobs["gen_relay"] = pool.submit(_gen, ctx, "gen_relay", "relay", 2)             # every script x reachability
-        jobs["gen_sim"] = pool.submit(_gen, ctx, "gen_sim", "full", 4, True, True, simulate=1000)   # seeded walks: 4 segments, any cut, any timeline
+        jobs["gen_sim"] = pool.submit(_gen, ctx, "gen_sim", "full", 4, True, True, simulate=1500)   # seeded walks: 4 segments, any cut, any timeline
     else:
-        jobs["mc"] = pool.submit(_mc, ctx, "mc_3chunks_all_cuts", 3, True, workers=8)
-        jobs["gen_reader"] = pool.submit(_gen, ctx, "gen_reader", "reader", 4, True)
+        jobs["mc"] = pool.submit(_mc, ctx, "mc_6chunks_all_cuts", 6, True, workers=8)
+        jobs["gen_reader"] = pool.submit(_gen, ctx, "gen_reader", "reader", 4, True)    # 4 segments at anchors, deadline / close anywhere
         jobs["gen_relay"] = pool.submit(_gen, ctx, "gen_relay", "relay", 3)
-        jobs["gen_full"] = pool.submit(_gen, ctx, "gen_full", "full", 3, True)
         jobs["gen_sim"] = pool.submit(_gen, ctx, "gen_sim", "full", 4, True, True, simulate=20000)
     res = {n: f.result() for n, f in jobs.items()}
     for dev, r in neg_f.result().items():
@@ -127,7 +130,7 @@ def run(ctx):
         raise lib.Inconclusive("TLC produced no behaviours")
     inp = lib.write_lines(os.path.join(ctx.work, "c09_behaviours.ndjson"), behaviours)
     replay_f = pool.submit(lib.run_go, ctx, "server", "TestVerifC09Replay",
-                           {"VERIF_IN": inp, "VERIF_C09_BUF": buf, "VERIF_C09_CONCS": 1 if q else 3}, 3000)
+                           {"VERIF_IN": inp, "VERIF_C09_BUF": buf, "VERIF_C09_CONCS": 2 if q else 3}, 3000)
     runs = []
     for name, f in (("explore", explore_f), ("replay", replay_f)):
         g = f.result()
@@ -177,7 +180,7 @@ def run(ctx):
                 "declaring 0..65535 with 0..all bytes present, 35 HTTP shapes, random streams) whole / + peer close / every cut position "
                 "(quick: every 7th and all boundaries) / random multi-cuts; every truncation (quick: every 7th) of authorised hellos; byte "
                 "mutations of unauthorised hellos. distinct = distinct abstract case+timeline (model) or family/class/kind/script signature; "
-                "non-trivial = the stream gets as far as a redirect decision" % (3 if q else 4, 1 if q else 3),
+                "non-trivial = the stream gets as far as a redirect decision" % (3 if q else 4, 2 if q else 3),
         "samples": (ex["samples"] + rp["samples"])[:10],
         "traces_validated_against_impl": rp["evaluations"] - rp["stats"].get("drift", 0),
         "behaviours_replayed": len(behaviours),
